@@ -65,7 +65,7 @@ inductive BinOp
   | vMulS | vDivS          -- VECTOR_MUL_SCALAR, VECTOR_DIV_SCALAR
   | mMulM                  -- MATRIX_MUL_MATRIX
   | mMulV                  -- MATRIX_MUL_VECTOR (added by the repair of matrix × vector)
-  | sMulV                  -- SCALAR_MUL_VECTOR (added by the repair of scalar × vector)
+  | invalid                -- no opcode exists for this operator/type combination (Python: ICE or KeyError while lowering)
   deriving DecidableEq, Repr, Inhabited
 
 inductive Instr
